@@ -366,6 +366,7 @@ BACKENDS = [
     {'kind': 'dir', 'serialized': True, 'protocol': None, 'compression': 3},
     {'kind': 'dir', 'serialized': True, 'protocol': None, 'memmode': 'r+'},
     {'kind': 'dir', 'serialized': True, 'protocol': None, 'fast': True},
+    {'kind': 'dir', 'serialized': True, 'protocol': None, 'permissions': 0o755},
     {'kind': 'sql', 'memory': False},
     {'kind': 'sql', 'memory': True},
 ]
@@ -386,6 +387,8 @@ def backend_name(b):
             s += '/mmap'
         elif b.get('fast'):
             s += '/fast'
+        elif b.get('permissions'):
+            s += '/perm'
         elif b.get('protocol') is not None:
             s += '/p%s' % b['protocol']
         else:
@@ -452,7 +455,7 @@ def build_archive(klepto, b, root, public=False, suffix=''):
     if k == 'dir':
         path = os.path.join(root, 'archdir%s' % suffix)
         kw = {'serialized': b.get('serialized', True), 'protocol': b.get('protocol')}
-        for o in ('compression', 'memmode', 'fast'):
+        for o in ('compression', 'memmode', 'fast', 'permissions'):
             if b.get(o):
                 kw[o] = b[o]
         if public:
